@@ -102,7 +102,9 @@ fn check(o: &mut Outcome, y: i64, m: i64, d: i64, secs: i64, with_format: bool, 
         const WEEKDAYS: [&str; 7] = ["Monday", "Tuesday", "Wednesday", "Thursday", "Friday", "Saturday", "Sunday"];
         // days_from_civil(1970-01-01) is a Thursday in the proleptic calendar used here
         let wd = WEEKDAYS[((days_from_civil(y, m, d) - days_from_civil(1970, 1, 1)).rem_euclid(7) + 3).rem_euclid(7) as usize];
-        let variants: [(&str, String); 13] = [
+        let variants: [(&str, String); 15] = [
+            ("yyyy\\-mm\\-dd", format!("{:04}-{:02}-{:02}", y, m, d)),
+            ("dd\\.mm\\.yyyy", format!("{:02}.{:02}.{:04}", d, m, y)),
             ("[$-F800]dddd, mmmm dd, yyyy", format!("{}, {} {:02}, {:04}", wd, mon, d, y)),
             ("[$-40C]dd/mm/yyyy", format!("{:02}/{:02}/{:04}", d, m, y)),
             ("[$-C09]d mmmm yyyy", format!("{} {} {:04}", d, mon, y)),
@@ -117,7 +119,7 @@ fn check(o: &mut Outcome, y: i64, m: i64, d: i64, secs: i64, with_format: bool, 
             ("mmmm d, yyyy", format!("{} {}, {:04}", mon, d, y)),
             ("dd.mm.yyyy", format!("{:02}.{:02}.{:04}", d, m, y)),
         ];
-        let (fmt, exp) = &variants[(day.rem_euclid(13)) as usize];
+        let (fmt, exp) = &variants[(day.rem_euclid(15)) as usize];
         o.count("formatted.literal-and-locale-formats", 1);
         let f = guard(|| to_formatted_string(&format!("{}", day), fmt));
         if f.as_deref() != Ok(exp.as_str()) {
